@@ -44,7 +44,18 @@ func (C03) Generate(r *rand.Rand, tier string, idx int) *drv.Scenario {
 	o.ExtraOp = func(g *KVGen) *drv.Op {
 		vs := g.D.Sorted()
 		v := pick(g.R, vs)
-		switch g.R.IntN(3) {
+		switch g.R.IntN(4) {
+		case 3:
+			// another repo, created mid-history (its ids come from the same server-wide counters)
+			nrepo := 2
+			for _, n := range g.D.Nodes {
+				if n.Repo >= nrepo {
+					nrepo = n.Repo + 1
+				}
+			}
+			idx := g.D.NextIdx()
+			g.D.Add(idx, VUUID(idx), nil, "", nrepo)
+			return &drv.Op{Op: "repo", R: nrepo, N: int64(idx)}
 		case 0:
 			return &drv.Op{Op: "note", V: v, Val: g.NewVal()}
 		case 1:
